@@ -30,6 +30,12 @@ const ROLE_CLIENT: u8 = 3;
 
 thread_local! {
     static ROLE: std::cell::Cell<u8> = const { std::cell::Cell::new(0) };
+    /// Seed of the history being run (goes into replay files).
+    static HSEED: std::cell::Cell<u64> = const { std::cell::Cell::new(0) };
+}
+
+fn hcase(history: &[String]) -> Value {
+    json!({"history_seed": HSEED.with(|h| h.get()).to_string(), "history": history})
 }
 
 #[derive(Debug, Clone, Copy)]
@@ -369,7 +375,7 @@ impl Sim {
         let last_mono = reads.iter().rposition(|e| e.clk != libc::CLOCK_REALTIME);
         let order_ok = matches!((last_real, last_mono), (Some(r), Some(m)) if r < m);
         if !order_ok && (prop == "C12") {
-            violation(violations, a, "C12", "client-read-order", format!("now() read the clocks in the order {:?} (the monotonic clock must be read after CLOCK_REALTIME)", reads.iter().map(|e| e.clk).collect::<Vec<_>>()), json!({"history": history}));
+            violation(violations, a, "C12", "client-read-order", format!("now() read the clocks in the order {:?} (the monotonic clock must be read after CLOCK_REALTIME)", reads.iter().map(|e| e.clk).collect::<Vec<_>>()), hcase(history));
         }
         let t_read = reads.iter().find(|e| e.clk == libc::CLOCK_REALTIME).map(|e| e.t);
         let st = status_num(r.clock_status);
@@ -394,7 +400,7 @@ impl Sim {
             let rec = self.last_record;
             violation(violations, a, prop, if prop == "C12" { "delay-breaks-containment" } else { "true-time-outside-interval" },
                       format!("true time {} ns lies {} ns outside [{}, {}] returned with status {} at instant '{}' (published record {:?}; clock error {} ns)", t_read, -margin, e_ns, l_ns, st, tag, rec, self.world.lock().unwrap().err_units / UNIT),
-                      json!({"history": history, "instant": tag}));
+                      hcase(history));
         }
         Some((st, half))
     }
@@ -435,7 +441,7 @@ impl Sim {
             Ok(m) => m,
             Err(_) => {
                 if prop == "C13" || prop == "C01" {
-                    violation(violations, a, prop, "no-message", "a poller iteration delivered no message to the shm writer".to_string(), json!({"history": history}));
+                    violation(violations, a, prop, "no-message", "a poller iteration delivered no message to the shm writer".to_string(), hcase(history));
                 }
                 return Ok(());
             }
@@ -450,7 +456,7 @@ impl Sim {
             let came_from_read = reads.iter().any(|e| e.clk != libc::CLOCK_REALTIME && e.value == as_of_ns && entered.map_or(false, |t| e.t <= t));
             let before_sample = sampled.map_or(true, |(t, _, _)| as_of_ns <= t - t_boot);
             if prop == "C12" && (!came_from_read || !before_sample) {
-                violation(violations, a, "C12", "as-of-not-before-request", format!("as_of {} ns: monotonic readings by the poller before the request was issued {:?}; chronyd sampled at monotonic {}", as_of_ns, reads.iter().filter(|e| entered.map_or(false, |t| e.t <= t)).map(|e| e.value).collect::<Vec<_>>(), sampled.map(|(t, _, _)| t - t_boot).unwrap_or(-1)), json!({"history": history}));
+                violation(violations, a, "C12", "as-of-not-before-request", format!("as_of {} ns: monotonic readings by the poller before the request was issued {:?}; chronyd sampled at monotonic {}", as_of_ns, reads.iter().filter(|e| entered.map_or(false, |t| e.t <= t)).map(|e| e.value).collect::<Vec<_>>(), sampled.map(|(t, _, _)| t - t_boot).unwrap_or(-1)), hcase(history));
             }
         }
         // ---- C13: the message class follows the model. The poller has to judge the grace period
@@ -477,12 +483,12 @@ impl Sim {
         *obs.outcomes_by_kind.entry(format!("{}{}", got_kind, match &step { Step::Answer { kind, .. } => format!("/{:?}", kind), _ => String::new() })).or_insert(0) += 1;
         if prop == "C13" {
             if got_kind != expected_kind {
-                violation(violations, a, "C13", "message-class", format!("poll outcome {:?} (grace flag {}, phc configured {}): message {} expected {}", step, grace_flag, self.phc.is_some(), got_kind, expected_kind), json!({"history": history}));
+                violation(violations, a, "C13", "message-class", format!("poll outcome {:?} (grace flag {}, phc configured {}): message {} expected {}", step, grace_flag, self.phc.is_some(), got_kind, expected_kind), hcase(history));
             }
             if let (Message::ClockErrorBoundData((tr, phc_bound, _)), Step::Answer { ref_id, .. }) = (&msg, &step) {
                 let want = match &self.phc { Some(p) if p.refid == *ref_id => self.phc_value, _ => 0 };
                 if *phc_bound != want || tr.ref_id != *ref_id {
-                    violation(violations, a, "C13", "phc-bound", format!("report ref id {:#x}, configured PHC {:?} with file value {}: message carries PHC bound {} expected {}", ref_id, self.phc.as_ref().map(|p| p.refid), self.phc_value, phc_bound, want), json!({"history": history}));
+                    violation(violations, a, "C13", "phc-bound", format!("report ref id {:#x}, configured PHC {:?} with file value {}: message carries PHC bound {} expected {}", ref_id, self.phc.as_ref().map(|p| p.refid), self.phc_value, phc_bound, want), hcase(history));
                 }
             }
         }
@@ -499,7 +505,7 @@ impl Sim {
         match d.wait_publication() {
             Wait::Published => {}
             Wait::NotPublished => {
-                violation(violations, a, prop, "no-publication", "a poll outcome did not result in a publication".to_string(), json!({"history": history}));
+                violation(violations, a, prop, "no-publication", "a poll outcome did not result in a publication".to_string(), hcase(history));
                 return Ok(());
             }
             Wait::Inconclusive => return Err("writer thread did not answer".into()),
@@ -512,7 +518,7 @@ impl Sim {
         if prop == "C13" && !is_data {
             if let Some(b) = before {
                 if (b.bound, b.as_of) != (rec.bound, rec.as_of) {
-                    violation(violations, a, "C13", "measurement-changed-without-report", format!("after {}: published (bound, as_of) went from ({}, {:?}) to ({}, {:?})", got_kind, b.bound, b.as_of, rec.bound, rec.as_of), json!({"history": history}));
+                    violation(violations, a, "C13", "measurement-changed-without-report", format!("after {}: published (bound, as_of) went from ({}, {:?}) to ({}, {:?})", got_kind, b.bound, b.as_of, rec.bound, rec.as_of), hcase(history));
                 }
             }
         }
@@ -554,6 +560,7 @@ fn random_step(rng: &mut Rng, focus: &str, phc_refid: u32) -> Step {
 
 fn one_history(a: &Args, mode: &str, seed: u64, obs: &mut Obs, violations: &mut Vec<Value>) -> Result<Vec<String>, String> {
     let prop: &str = match mode { "c12" => "C12", "c13" => "C13", _ => "C01" };
+    HSEED.with(|h| h.set(seed));
     let mut rng = Rng::new(seed);
     let drift_ppm = *rng.pick(&[1u32, 50, 500]);
     let d_ppb = drift_ppm as i64 * 1000;
@@ -637,7 +644,7 @@ fn one_history(a: &Args, mode: &str, seed: u64, obs: &mut Obs, violations: &mut 
                 if let (Some((s0, h0)), Some((s1, h1))) = (h0, h1) {
                     obs.gap_checks += 1;
                     if s0 != 0 && s1 != 0 && h1 < h0 {
-                        violation(violations, a, "C12", "delay-shrinks-interval", format!("half-width {} ns with a {} ns delay between the two clock reads, {} ns without", h1, cgap, h0), json!({"history": history}));
+                        violation(violations, a, "C12", "delay-shrinks-interval", format!("half-width {} ns with a {} ns delay between the two clock reads, {} ns without", h1, cgap, h0), hcase(&history));
                     }
                 }
             } else {
@@ -706,9 +713,10 @@ pub fn run(mode: &str, a: &Args) -> Value {
     let mut distinct = std::collections::HashSet::new();
     let mut samples = Vec::new();
     let mut inconclusive: Option<String> = None;
+    let only: Option<u64> = a.map.get("history").and_then(|s| s.parse().ok());
     let mut k = a.shard;
     while k < a.count {
-        let seed = Rng::new(a.seed.wrapping_mul(0x51_7C_C1B7).wrapping_add(k)).next();
+        let seed = only.unwrap_or_else(|| Rng::new(a.seed.wrapping_mul(0x51_7C_C1B7).wrapping_add(k)).next());
         match one_history(a, mode, seed, &mut obs, &mut violations) {
             Ok(h) => {
                 evaluations += 1;
@@ -719,7 +727,7 @@ pub fn run(mode: &str, a: &Args) -> Value {
             }
             Err(e) => inconclusive = Some(e),
         }
-        if violations.len() >= 20 {
+        if violations.len() >= 20 || only.is_some() {
             break;
         }
         k += a.nshards;
